@@ -744,7 +744,7 @@ func runFuzzStage(p *Prop, tier string, merged *Result, inconclusive *[]string) 
 		merged.Classes["fuzz_stage_skipped"]++
 		return
 	}
-	args := []string{"test", "-tags", "verif", "-run", "^$", "-fuzz", "^" + p.FuzzTarget + "$", "-fuzztime", fmt.Sprintf("%dx", n)}
+	args := []string{"test", "-tags", "verif", "-gcflags=all=-d=checkptr", "-run", "^$", "-fuzz", "^" + p.FuzzTarget + "$", "-fuzztime", fmt.Sprintf("%dx", n)}
 	if mf := os.Getenv("VERIF_MODFILE"); mf != "" {
 		args = append(args, "-modfile="+mf)
 	}
